@@ -94,15 +94,24 @@ pub(super) fn normalize_frequencies(frequencies: &Frequencies) -> Frequencies {
             continue;
         }
 
-        *g = (f * SCALING_FACTOR / sum).max(1);
+        let normalized_frequency = u64::from(f) * u64::from(SCALING_FACTOR) / u64::from(sum);
+        // SAFETY: `normalized_frequency <= SCALING_FACTOR`.
+        *g = (normalized_frequency as u32).max(1);
 
         normalized_sum += *g;
     }
 
     if normalized_sum < SCALING_FACTOR {
         normalized_frequencies[max_index] += SCALING_FACTOR - normalized_sum;
-    } else if normalized_sum > SCALING_FACTOR {
-        normalized_frequencies[max_index] -= normalized_sum - SCALING_FACTOR;
+    } else {
+        // Rare symbols are rounded up to 1, which can exceed the total by more than the most
+        // frequent symbol holds. Take the excess from the largest frequencies, one at a time.
+        for _ in SCALING_FACTOR..normalized_sum {
+            // SAFETY: The sum is > the alphabet size, so the largest frequency is > 1.
+            if let Some(g) = normalized_frequencies.iter_mut().max() {
+                *g -= 1;
+            }
+        }
     }
 
     normalized_frequencies
